@@ -714,11 +714,19 @@ func runC06(c HeapCase, o *vk.Obs) string {
 type SortCase struct {
 	Vs   []int `json:"vs"`
 	Desc bool  `json:"desc,omitempty"`
+	// Big > 0 appends Big generated values (i*7919 mod 1009 mod 37) to Vs;
+	// Spare is the capacity beyond the length of the slice handed to Sort.
+	Big   int `json:"big,omitempty"`
+	Spare int `json:"spare,omitempty"`
 }
 
 func runSort(c SortCase, o *vk.Obs) string {
-	in := make([]Elem, len(c.Vs))
-	for i, v := range c.Vs {
+	vs := c.Vs
+	for i := 0; i < c.Big; i++ {
+		vs = append(vs[:len(vs):len(vs)], (i*7919%1009)%37)
+	}
+	in := make([]Elem, len(vs))
+	for i, v := range vs {
 		in[i] = Elem{V: v, ID: i + 1}
 	}
 	cmp := asc
@@ -727,7 +735,7 @@ func runSort(c SortCase, o *vk.Obs) string {
 	}
 	var arg []Elem
 	if c.Vs != nil {
-		arg = append(make([]Elem, 0, len(in)+2), in...)
+		arg = append(make([]Elem, 0, len(in)+2+c.Spare), in...)
 	}
 	heapq.Sort(cmp, arg)
 	if len(arg) != len(in) {
@@ -736,11 +744,11 @@ func runSort(c SortCase, o *vk.Obs) string {
 	seen := map[int]bool{}
 	for i, e := range arg {
 		if e.ID < 1 || e.ID > len(in) || in[e.ID-1] != e || seen[e.ID] {
-			return fmt.Sprintf("Sort(%v desc=%v): output[%d] = %v is not a (fresh) input element; output %v", c.Vs, c.Desc, i, e, arg)
+			return fmt.Sprintf("Sort(%s desc=%v): output[%d] = %v is not a (fresh) input element; output %s", briefInts(vs), c.Desc, i, e, briefElems(arg))
 		}
 		seen[e.ID] = true
 		if i > 0 && cmp(arg[i-1], e) > 0 {
-			return fmt.Sprintf("Sort(%v desc=%v): output not sorted at %d: %v then %v; output %v", c.Vs, c.Desc, i, arg[i-1], e, arg)
+			return fmt.Sprintf("Sort(%s desc=%v, cap %d): output not sorted at %d: %v then %v; output %s", briefInts(vs), c.Desc, cap(arg), i, arg[i-1], e, briefElems(arg))
 		}
 	}
 	dups := false
@@ -753,6 +761,21 @@ func runSort(c SortCase, o *vk.Obs) string {
 		o.NonTrivial()
 	}
 	o.ClassIf(len(arg) < 2, "len<2")
+	o.ClassIf(cap(arg) >= 256, "cap>=256")
 	o.ClassIf(dups, "has_duplicates")
 	return ""
+}
+
+func briefInts(v []int) string {
+	if len(v) > 24 {
+		return fmt.Sprintf("%v…(%d)", v[:24], len(v))
+	}
+	return fmt.Sprint(v)
+}
+
+func briefElems(v []Elem) string {
+	if len(v) > 24 {
+		return fmt.Sprintf("%v…(%d)", v[:24], len(v))
+	}
+	return fmt.Sprint(v)
 }
